@@ -202,6 +202,41 @@ func runC13(r *fw.Run) {
 		}
 	})
 	r.Expect("C13-R4", "TriggerCountInc / initialized.Store sites", nInit, 2)
+	// the trigger that is marked initialized (and counted) is the one currently in the registry
+	if fi := p.Func("resolve", "Resolver.markTriggerInitialized"); fi == nil {
+		r.Error("C13-R4: Resolver.markTriggerInitialized not found")
+	} else {
+		g := fw.NewGuards(info, fw.GuardSpec{Name: "found-in-registry", Sticky: true, Match: func(_ *types.Info, a fw.CondAtom) bool {
+			if a.Kind != "True" {
+				return false
+			}
+			id, ok := ast.Unparen(a.X).(*ast.Ident)
+			if !ok {
+				return false
+			}
+			return fw.VarFromCall(fi, info.Uses[id], id.Pos(), "resolve", "Resolver.getTrigger", 1) || isLookupOK(fi, id, "resolve", "Resolver", "triggers")
+		}})
+		n := 0
+		in := fw.NewInterp(fi)
+		in.H = fw.Hooks{Cond: g.Cond, Node: func(nd ast.Node, st *fw.State) {
+			c, ok := nd.(*ast.CallExpr)
+			if !ok || !in.Final() {
+				return
+			}
+			if cc, ok := fw.AtomicFieldCall(info, c, "resolve", "trigger", "initialized", "Store"); ok {
+				n++
+				recv := ast.Unparen(cc.Fun).(*ast.SelectorExpr).X.(*ast.SelectorExpr).X
+				fromRegistry := false
+				if id, ok := ast.Unparen(recv).(*ast.Ident); ok {
+					fromRegistry = fw.VarFromCall(fi, info.Uses[id], id.Pos(), "resolve", "Resolver.getTrigger", 0)
+				}
+				r.Check(fromRegistry && g.Has(st, "found-in-registry"), "C13-R4", fi.Name()+"/counts-registered-trigger", p.Pos(c.Pos()), "the trigger marked initialized (and counted) was just found in the registry",
+					"initialized.Store(true)/TriggerCountInc act on a trigger object that was not (re-)looked up in the registry: a trigger detached while Source.Start was in flight is counted although its removal already happened — the trigger count never returns to zero")
+			}
+		}}
+		in.Run(nil)
+		r.Expect("C13-R4", "initialized.Store in markTriggerInitialized", n, 1)
+	}
 
 	// ---- R5 trigger identity --------------------------------------------------------------------
 	r.Rule("C13-R5", "the trigger id returned by prepareTrigger is the digest fed with the source's hash of the input and with the forwarded-headers hash")
